@@ -22,9 +22,9 @@ Proof.
           try (destruct (forallb _ _); intro H; inversion H; reflexivity)).
 Qed.
 
-Lemma inst_validate_plain : forall f x q, lvalidate f x <> Err (EValidation q).
+Lemma inst_validate_kind_plain : forall f x q, lvalidate_kind f x <> Err (EValidation q).
 Proof.
-  intros f x q. unfold lvalidate.
+  intros f x q. unfold lvalidate_kind.
   destruct x as [|b|z|fl|s|bs|tg l|l|tg d|sa0 dg al|tg];
     try (destruct (l_required f); discriminate);
     destruct (l_kind f) as [lo hi|mn mx lw st| | |]; try discriminate; try apply inst_validate_bool_plain;
@@ -35,6 +35,13 @@ Proof.
   - destruct (l_required f && _); [discriminate|]. destruct (lw && _); [discriminate|].
     destruct (match mn with Some m => _ | None => false end); [discriminate|].
     destruct (match mx with Some m => _ | None => false end); discriminate.
+Qed.
+
+Lemma inst_validate_plain : forall f x q, lvalidate f x <> Err (EValidation q).
+Proof.
+  intros f x q. unfold lvalidate. destruct (lvalidate_kind f x) eqn:E; try discriminate.
+  - destruct x; try discriminate; destruct (l_reject f); try discriminate; destruct (pyval_eqb a p); discriminate.
+  - intro H. inversion H; subst. eapply inst_validate_kind_plain; eauto.
 Qed.
 
 Lemma inst_to_python_plain : forall f x q, lto_python f x <> Err (EValidation q).
@@ -49,7 +56,7 @@ Proof. intros vt. apply rejection_shape; [apply inst_validate_plain | apply inst
 (* ---- a small schema used by the examples: n = IntField(min=1,max=100,default=3); s = StringField(min_len=2, required);
         sub.a = IntField(max=20, default=5) ---- *)
 Definition mk (k : lkind) (req : bool) (d : pyval) : leaf :=
-  {| l_kind := k; l_required := req; l_default := d; l_callable := false; l_sensitive := false |}.
+  {| l_kind := k; l_required := req; l_default := d; l_callable := false; l_sensitive := false; l_reject := None |}.
 Definition ex_fs : list (str * node leaf) :=
   [(sa "n", NLeaf (mk (LInt (Some 1%Z) (Some 100%Z)) false (PInt 3)));
    (sa "s", NLeaf (mk (LStr (Some 2%nat) None false false) true (PStr (sa "abc"))));
@@ -127,9 +134,9 @@ Qed.
 Lemma lower_length : forall s, length (lower s) = length s.
 Proof. intro s. unfold lower. apply map_length. Qed.
 
-Theorem inst_validate_sound : forall f x v, lvalidate f x = Ok v -> inst_meets f v.
+Lemma inst_validate_kind_sound : forall f x v, lvalidate_kind f x = Ok v -> inst_meets f v.
 Proof.
-  intros f x v. unfold lvalidate, inst_meets.
+  intros f x v. unfold lvalidate_kind, inst_meets.
   destruct x as [|b|z|fl|s|bs|tg l|l|tg d|sa0 dg al|tg];
     try (destruct (l_required f); [discriminate | intro H; inversion H; left; reflexivity]);
     destruct (l_kind f) as [lo hi|mn mx lw st| | |]; try discriminate;
@@ -151,6 +158,14 @@ Proof.
       try (intros Hr Hs; rewrite Hr in Er; cbn [andb] in Er; assert (s1 = []) by
              (unfold s2 in Hs; destruct lw; [apply (f_equal (@length N)) in Hs; rewrite lower_length in Hs; destruct s1; [reflexivity | discriminate] | exact Hs]);
            subst s1; rewrite H0 in Er; discriminate).
+Qed.
+
+Theorem inst_validate_sound : forall f x v, lvalidate f x = Ok v -> inst_meets f v.
+Proof.
+  intros f x v. unfold lvalidate. destruct (lvalidate_kind f x) eqn:E; try discriminate.
+  intro H. apply (inst_validate_kind_sound f x).
+  destruct x; try (inversion H; subst; exact E); destruct (l_reject f); try (inversion H; subst; exact E);
+    destruct (pyval_eqb a p); try discriminate; inversion H; subst; exact E.
 Qed.
 
 (* every state reachable from a fresh configuration by any history is well-formed, given valid declared defaults *)
